@@ -1064,7 +1064,7 @@ func TestVerif_C27_Crash(t *testing.T) {
 	skipped := false
 
 	kinds := []string{"va", "a", "va+50", "va+300", "va-50", "va-300"}
-	if verifrt.Param("STARTRACE", 0) == 1 {
+	if verifrt.Param("STARTRACE", 1) == 1 {
 		// audio leads and its second unit arrives before the second video unit: the first segment is
 		// opened by the audio sample and the first IDR is discarded as late (findings/C27.md, C27-F3)
 		kinds = append(kinds, "va+50r")
@@ -1315,19 +1315,4 @@ func vf27FlatIDs(sg *vf27Seg) [][2]int {
 		out = append(out, vf27IDs(p)...)
 	}
 	return out
-}
-
-func vf27RunEnd(run vf27Run, ends map[int]int64) int64 {
-	var e int64
-	for tr, v := range ends {
-		for _, u := range run.Units {
-			if u.Track == tr {
-				if x := u.NTP + (v - u.T); x > e {
-					e = x
-				}
-				break
-			}
-		}
-	}
-	return e
 }
